@@ -1022,6 +1022,7 @@ func runC16(e *Env) error {
 	}
 
 	c16AllocOracle(e)
+	c16Sequences(e)
 	// FACT gobFallbackOnV1: does the code hand inputs that start with the version byte to the gob decoder?
 	c16Fb = nil
 	if v := os.Getenv("C16_FALLBACK_V1"); v != "" {
